@@ -179,6 +179,14 @@ def _gen_cfg(r: Rng, ex: str) -> Dict[str, Any]:
             # an image shorter than the 256 KiB window: the window stays read-only, the uncovered part reads the
             # array underneath (the last 256 bytes of the window are then left alone: recorded IMEM alias)
             cfg["rom_len"] = rr.choice([None, None, 0x100, 0x8000, 0x20000])
+        else:
+            # the ROM reaches the memory the way a front end installs it — DeviceModel::configure_runtime with an image
+            # file of some length (PC-E500: the last 256 KiB go into the ROM window; PC-E500-JP: a full 1 MiB system
+            # image is loaded whole, a shorter file as for the PC-E500) — instead of the harness writing the window
+            # and declaring the read-only map itself (None)
+            cfg["loader"] = rr.choice([None, None, ["pce500", 0x40000], ["pce500", 0x100000], ["pce500", 0x8000],
+                                       ["jp", 0x100000], ["jp", 0x100000], ["jp", 0x40000], ["jp", 0x20000],
+                                       ["pce500", 0x80000]])
     return cfg
 
 
@@ -220,6 +228,9 @@ class Model:
         if ex == "rs-mem" and cfg["rom"]:
             self.readonly += [(0x00000, 0x3FFFF), (0xC0000, 0xFFFFF)]
         self.absent_seen: Dict[int, int] = {}
+        # a runtime configured by the device-model loaders seeds some internal registers (interrupt mask, serial
+        # port): there the initial value of an internal cell is whatever is read first; it must then behave as memory
+        self.int_learn = bool(ex == "rs-mem" and cfg["rom"] and cfg.get("loader"))
 
     def _add_ov(self, ov, replace=True):
         if replace:
@@ -251,9 +262,17 @@ class Model:
     def _ext_backing(self, a: int) -> int:
         if a in self.ext:
             return self.ext[a]
-        if self.ex == "rs-mem" and self.cfg["rom"] and a >= 0xC0000:
+        if self.ex == "rs-mem" and self.cfg["rom"] and self._image_covers(a):
             return _rom_byte(self.cfg["rom_seed"], a)
         return 0
+
+    def _image_covers(self, a: int) -> bool:
+        ld = self.cfg.get("loader")
+        if not ld:
+            return a >= 0xC0000
+        if ld[0] == "jp" and ld[1] >= 0x100000:
+            return True                       # full system image: every external byte starts as the file's byte
+        return 0xC0000 <= a < 0xC0000 + min(ld[1], 0x40000)
 
     def specified(self, a32: int) -> bool:
         c = self.canon(a32)
@@ -270,7 +289,7 @@ class Model:
         if c is None:
             return None
         if c[0] == "int":
-            return self.int.get(c[1], 0)
+            return self.int.get(c[1], None if self.int_learn else 0)
         a = c[1]
         for o in self.ov:
             if not (o["start"] <= a <= o["end"]):
@@ -346,6 +365,9 @@ def _edges(cfg: Dict[str, Any], ex: str) -> List[int]:
             # the slot beyond a small card, and the addresses a mirrored decode would fold onto the card
             e += [0x40000 + cfg["card"], 0x40000 + cfg["card"] + 1, 0x40123, 0x40123 + cfg["card"], 0x40001,
                   0x40001 + cfg["card"]]
+    if cfg.get("loader") and cfg["loader"][1] < 0x40000:
+        end = 0xC0000 + cfg["loader"][1]
+        e += [end - 2, end - 1, end, end + 1]
     if cfg.get("rom_len"):
         end = 0xC0000 + cfg["rom_len"]
         e += [end - 2, end - 1, end, end + 1, end + 0x1000, 0xFFEFE, 0xFFEFF]
@@ -462,7 +484,9 @@ def _apply_cfg(model: Model, op: list) -> None:
 
 def _setup_ops_rs(cfg: Dict[str, Any]) -> List[list]:
     ops: List[list] = [["cfg", "mirror", bool(cfg["mirror"])]]
-    if cfg["rom"]:
+    if cfg["rom"] and cfg.get("loader"):
+        pass                                   # installed by mem.new_rt (execute)
+    elif cfg["rom"]:
         # what load_pce500_rom_window does: image into the external array + the documented read-only windows
         ops.append(["cfg", "romimage", cfg["rom_seed"]])
         ops.append(["cfg", "pce500_map"])
@@ -539,7 +563,9 @@ def execute(scn: Dict[str, Any]) -> Dict[str, Any]:
     if scn["exec"] == "py-mem":
         return {"out": _run_py(scn)}
     setup = _setup_ops_rs(scn["cfg"])
-    out = host().call([["mem.new", 0], ["mem.script", 0, setup + scn["ops"]]])[0]
+    ld = scn["cfg"].get("loader") if scn["cfg"]["rom"] else None
+    new = ["mem.new_rt", 0, ld[0], scn["cfg"]["rom_seed"], ld[1]] if ld else ["mem.new", 0]
+    out = host().call([new, ["mem.script", 0, setup + scn["ops"]]])[0]
     return {"out": out[len(setup):]}
 
 
@@ -619,6 +645,8 @@ def check(scn: Dict[str, Any], hist: Dict[str, Any]) -> List[Dict[str, Any]]:
                 c = model.canon(a + j)
                 if c and c[0] == "ext":
                     model.absent_seen[c[1]] = got_bytes[j]
+                elif c and c[0] == "int":
+                    model.int[c[1]] = got_bytes[j]
                 exp_bytes[j] = got_bytes[j]
         if got_bytes == exp_bytes and (got >> bits) == 0:
             continue
